@@ -204,3 +204,91 @@ Proof.
   split; [exact C2|]. exact (canon_unique K V cmp layer bf m m2 l C C2).
 Qed.
 End UNDOT.
+
+(** * order independence on sorted listings: updates of different keys commute (so any two orders of
+    the same inserts and deletes of distinct keys end in the same listing - and, canonical form,
+    in the same tree) *)
+Section COMMUTE.
+Variables K V : Type.
+Variable cmp : K -> K -> comparison.
+Hypothesis cmp_eq : forall a b, cmp a b = Eq <-> a = b.
+Hypothesis cmp_antisym : forall a b, cmp b a = CompOpp (cmp a b).
+Hypothesis cmp_trans : forall a b c, cmp a b = Lt -> cmp b c = Lt -> cmp a c = Lt.
+Notation lk := (Spec.lookup K V cmp).
+Notation ups := (Spec.upsert K V cmp).
+Notation rmv := (Spec.remove K V cmp).
+Notation US := (upsert_sorted K V cmp cmp_eq cmp_antisym cmp_trans).
+Notation RS := (remove_sorted K V cmp cmp_eq cmp_antisym cmp_trans).
+
+Lemma key_dec (a b : K) : a = b \/ a <> b.
+Proof.
+  destruct (cmp a b) eqn:E; [left; apply cmp_eq; exact E| |];
+    right; intros ->; rewrite (proj2 (cmp_eq b b) eq_refl) in E; discriminate E.
+Qed.
+
+Theorem upsert_upsert_comm k1 v1 k2 v2 l : k1 <> k2 -> ssorted K V cmp l ->
+  ups k1 v1 (ups k2 v2 l) = ups k2 v2 (ups k1 v1 l).
+Proof.
+  intros N S. assert (N' : k2 <> k1) by (intros E; apply N; symmetry; exact E).
+  apply (sorted_ext K V cmp cmp_eq cmp_antisym cmp_trans); [apply US, US, S|apply US, US, S|].
+  intros k. destruct (key_dec k1 k) as [->|D1].
+  - rewrite (lookup_upsert_same K V cmp cmp_eq cmp_antisym).
+    rewrite (lookup_upsert_other K V cmp cmp_eq k2 v2 k N'), (lookup_upsert_same K V cmp cmp_eq cmp_antisym). reflexivity.
+  - rewrite (lookup_upsert_other K V cmp cmp_eq k1 v1 k D1). destruct (key_dec k2 k) as [->|D2].
+    + rewrite !(lookup_upsert_same K V cmp cmp_eq cmp_antisym). reflexivity.
+    + rewrite !(lookup_upsert_other K V cmp cmp_eq k2 v2 k D2), (lookup_upsert_other K V cmp cmp_eq k1 v1 k D1). reflexivity.
+Qed.
+
+Theorem remove_remove_comm k1 k2 l : ssorted K V cmp l -> rmv k1 (rmv k2 l) = rmv k2 (rmv k1 l).
+Proof.
+  intros S. destruct (key_dec k1 k2) as [->|N]; [reflexivity|].
+  assert (N' : k2 <> k1) by (intros E; apply N; symmetry; exact E).
+  apply (sorted_ext K V cmp cmp_eq cmp_antisym cmp_trans); [apply RS, RS, S|apply RS, RS, S|].
+  intros k. destruct (key_dec k1 k) as [->|D1].
+  - rewrite (lookup_remove_same K V cmp cmp_eq cmp_antisym k _ (RS k2 l S)).
+    rewrite (lookup_remove_other K V cmp cmp_eq k2 k N'), (lookup_remove_same K V cmp cmp_eq cmp_antisym k l S). reflexivity.
+  - rewrite (lookup_remove_other K V cmp cmp_eq k1 k D1). destruct (key_dec k2 k) as [->|D2].
+    + rewrite (lookup_remove_same K V cmp cmp_eq cmp_antisym k l S), (lookup_remove_same K V cmp cmp_eq cmp_antisym k _ (RS k1 l S)). reflexivity.
+    + rewrite !(lookup_remove_other K V cmp cmp_eq k2 k D2), (lookup_remove_other K V cmp cmp_eq k1 k D1). reflexivity.
+Qed.
+
+Theorem upsert_remove_comm k1 v1 k2 l : k1 <> k2 -> ssorted K V cmp l ->
+  ups k1 v1 (rmv k2 l) = rmv k2 (ups k1 v1 l).
+Proof.
+  intros N S. assert (N' : k2 <> k1) by (intros E; apply N; symmetry; exact E).
+  apply (sorted_ext K V cmp cmp_eq cmp_antisym cmp_trans); [apply US, RS, S|apply RS, US, S|].
+  intros k. destruct (key_dec k1 k) as [->|D1].
+  - rewrite (lookup_upsert_same K V cmp cmp_eq cmp_antisym).
+    rewrite (lookup_remove_other K V cmp cmp_eq k2 k N'), (lookup_upsert_same K V cmp cmp_eq cmp_antisym). reflexivity.
+  - rewrite (lookup_upsert_other K V cmp cmp_eq k1 v1 k D1). destruct (key_dec k2 k) as [->|D2].
+    + rewrite (lookup_remove_same K V cmp cmp_eq cmp_antisym k l S), (lookup_remove_same K V cmp cmp_eq cmp_antisym k _ (US k1 v1 l S)). reflexivity.
+    + rewrite !(lookup_remove_other K V cmp cmp_eq k2 k D2), (lookup_upsert_other K V cmp cmp_eq k1 v1 k D1). reflexivity.
+Qed.
+End COMMUTE.
+
+(** ... carried over to the trees: two Inserts of different keys, in either order, end in the same tree *)
+Section COMMUTET.
+Variables (K V : Type) (cmp : K -> K -> comparison) (veq : V -> V -> bool) (layer : K -> nat).
+Hypothesis cmp_eq : forall a b, cmp a b = Eq <-> a = b.
+Hypothesis cmp_antisym : forall a b, cmp b a = CompOpp (cmp a b).
+Hypothesis cmp_trans : forall a b c, cmp a b = Lt -> cmp b c = Lt -> cmp a c = Lt.
+Hypothesis veq_eq : forall x y, veq x y = true <-> x = y.
+Hypothesis layer_bound : forall k, layer k < max_layer_fuel.
+Notation IOK := (insert_ok K V cmp veq layer cmp_eq cmp_antisym cmp_trans veq_eq layer_bound).
+
+Theorem inserts_commute bf m l k1 v1 k2 v2 :
+  canon K V cmp layer bf m l -> k1 <> k2 ->
+  oks (insert K V cmp veq layer m k1 v1) (fun a1 =>
+  oks (insert K V cmp veq layer a1 k2 v2) (fun a2 =>
+  oks (insert K V cmp veq layer m k2 v2) (fun b1 =>
+  oks (insert K V cmp veq layer b1 k1 v1) (fun b2 => same_tree K V a2 b2)))).
+Proof.
+  intros C N.
+  eapply oks_weaken; [exact (IOK bf m l k1 v1 C)|]. intros a1 Ca1.
+  eapply oks_weaken; [exact (IOK bf a1 _ k2 v2 Ca1)|]. intros a2 Ca2.
+  eapply oks_weaken; [exact (IOK bf m l k2 v2 C)|]. intros b1 Cb1.
+  eapply oks_weaken; [exact (IOK bf b1 _ k1 v1 Cb1)|]. intros b2 Cb2. cbn beta in Ca2, Cb2.
+  rewrite (upsert_upsert_comm K V cmp cmp_eq cmp_antisym cmp_trans k1 v1 k2 v2 l N (cn_sorted _ _ _ _ _ _ _ C)) in Cb2.
+  exact (canon_unique K V cmp layer bf a2 b2 _ Ca2 Cb2).
+Qed.
+End COMMUTET.
